@@ -4,7 +4,7 @@
 From Coq Require Import Permutation.
 From Verif Require Import Base.Lex Region.Model Region.Ord Region.ProofsContains Region.ProofsGroup Region.ProofsInsert
   Region.ProofsMerge Region.ProofsGap Region.ProofsPhase1 Region.ProofsPhase2
-  Region.Converge Region.ProofsConvA Region.ProofsConvB Region.ProofsConvC Region.PdCodec.
+  Region.Converge Region.ProofsConvA Region.ProofsConvB Region.ProofsConvC Region.PdCodec Region.ProofsBucket.
 Open Scope N_scope.
 
 (* ---- containment ---- *)
@@ -24,8 +24,8 @@ Print Assumptions C09_contains.
 
 (* F08: the end-key lookup of the empty key (the end of the key space) returns a region that does not contain it
    by end — from a cold and from a warm cache (PD and the cache hold the two regions [-inf,"b") ["b",+inf)) *)
-Definition f08_first := mkDesc 1 [] [98] 1 1 [(1, 1)] (1, 1).
-Definition f08_last := mkDesc 2 [98] [] 1 1 [(2, 1)] (2, 1).
+Definition f08_first := mkDesc 1 [] [98] 1 1 [(1, 1)] (1, 1) None.
+Definition f08_last := mkDesc 2 [98] [] 1 1 [(2, 1)] (2, 1) None.
 Definition f08_pd (t : nat) (q : pd_req) : pd_ans :=
   match q with
   | ReqGet k => PdOne (Some (if lex_ltb k [98] then f08_first else f08_last))
@@ -208,16 +208,45 @@ Proof.
 Qed.
 Print Assumptions C09_contains_codec.
 
+(* ---- buckets ---- *)
+(* KeyLocation.LocateBucket on a location [s,e) with ANY list of bucket keys (unsorted, stale, outside the region):
+   a key of the region always gets a bucket, and the bucket contains the key *)
+Theorem C09_bucket_contains : forall s e keys key, contains s e key = true ->
+  exists b, locate_bucket_full s e keys key = Some b /\ contains (fst b) (snd b) key = true.
+Proof. exact locate_bucket_full_contains. Qed.
+Print Assumptions C09_bucket_contains.
+(* a bucket found by the search (locateBucket) is clamped: it lies inside the (non-empty) region and is non-empty *)
+Theorem C09_bucket_inside : forall s e keys key b0, (e = [] \/ lex_ltb s e = true) ->
+  locate_bucket keys key = Some b0 -> exists b, locate_bucket_full s e keys key = Some b /\ inside s e b.
+Proof. exact locate_bucket_full_found_inside. Qed.
+Print Assumptions C09_bucket_inside.
+(* the fall-back buckets (key below the first / at or above the last bucket key) are NOT clamped: with stale bucket keys
+   they reach outside the region — region [t,z), keys [a,h,m], key u: bucket [m,z) *)
+Theorem C09_bucket_inside_refuted :
+  exists s e keys key b, contains s e key = true /\ locate_bucket_full s e keys key = Some b /\ ~ inside s e b.
+Proof.
+  exists [116], [122], [[97]; [104]; [109]], [117], ([109], [122]). split; [reflexivity|]. split; [reflexivity|].
+  intros [H _]. cbn in H. discriminate.
+Qed.
+Print Assumptions C09_bucket_inside_refuted.
+(* bucket versions never go back: an inserted region ends up with at least its own bucket version and at least the
+   version of the entry whose place it takes; OnBucketVersionNotMatch only raises it (by definition) *)
+Theorem C09_bucket_version_mono : forall r deleted,
+  bk_ver (r_bk r) <= bk_ver (r_bk (inherit r deleted)) /\
+  (forall old t, deleted = old :: t -> bk_ver (r_bk old) <= bk_ver (r_bk (inherit r deleted))).
+Proof. exact inherit_bk_version. Qed.
+Print Assumptions C09_bucket_version_mono.
+
 (* ---- non-vacuity ---- *)
 Definition ex_pd (t : nat) (q : pd_req) : pd_ans :=
   match q with
-  | ReqBatch _ _ | ReqScan _ _ _ => PdMany [mkDesc 2 [98] [100] 3 1 [(2, 1)] (2, 1)]
+  | ReqBatch _ _ | ReqScan _ _ _ => PdMany [mkDesc 2 [98] [100] 3 1 [(2, 1)] (2, 1) None]
   | ReqGet k => f08_pd t q
   | _ => PdOne None
   end.
 (* regions [-inf,b) [b,d) [d,+inf); the cache knows the first and the last; three ranges, the middle one is a miss *)
 Definition ex_cache : cache := insert_all empty_cache
-  [new_region (mkDesc 1 [] [98] 3 1 [(1, 1)] (1, 1)); new_region (mkDesc 3 [100] [] 3 1 [(3, 1)] (3, 1))].
+  [new_region (mkDesc 1 [] [98] 3 1 [(1, 1)] (1, 1) None); new_region (mkDesc 3 [100] [] 3 1 [(3, 1)] (3, 1) None)].
 Definition ex_ranges : list range := [([97], [97; 1]); ([98], [99]); ([101], [102])].
 Example C09_range_gap_free_nonvacuous :
   sorted_starts (c_sorted ex_cache) /\ ranges_wf ex_ranges /\
@@ -229,20 +258,20 @@ Proof.
   - vm_compute. eexists _, _, _. split; reflexivity.
 Qed.
 Example C09_no_regress_nonvacuous :
-  let c := ex_cache in held 1 c [new_region (mkDesc 1 [] [98] 4 1 [(1, 1)] (1, 1))] /\
+  let c := ex_cache in held 1 c [new_region (mkDesc 1 [] [98] 4 1 [(1, 1)] (1, 1) None)] /\
   lat_get 1 (c_latest c) = Some (3, 1) /\
-  insert_region c (new_region (mkDesc 1 [] [99] 2 1 [(1, 1)] (1, 1))) = (false, c).
+  insert_region c (new_region (mkDesc 1 [] [99] 2 1 [(1, 1)] (1, 1) None)) = (false, c).
 Proof. vm_compute. repeat split; discriminate. Qed.
 
 (* convergence: two current regions [-inf,b) (id 1, leader on store 2) and [b,+inf) (id 2, leader on store 1); the cache
    holds one valid stale entry: region 1 before the split, believed to be led by its peer on store 1. The request for
    key "c" needs exactly 4 rounds: NotLeader, EpochNotMatch, NotLeader, served. *)
-Definition cv_R1 := mkDesc 1 [] [98] 2 1 [(1, 1); (2, 2)] (2, 2).
-Definition cv_R2 := mkDesc 2 [98] [] 2 1 [(3, 1); (4, 2)] (3, 1).
+Definition cv_R1 := mkDesc 1 [] [98] 2 1 [(1, 1); (2, 2)] (2, 2) None.
+Definition cv_R2 := mkDesc 2 [98] [] 2 1 [(3, 1); (4, 2)] (3, 1) None.
 Definition cv_truth := [cv_R1; cv_R2].
 Definition cv_pd (t : nat) (q : pd_req) : pd_ans :=
   match q with ReqGet k => PdOne (Some (if lex_ltb k [98] then cv_R1 else cv_R2)) | _ => PdOne None end.
-Definition cv_stale := mkRegion 1 [] [] 1 1 [(1, 1); (2, 2)] 0 false 0 false false false [0; 0].
+Definition cv_stale := mkRegion 1 [] [] 1 1 [(1, 1); (2, 2)] 0 false 0 false false false [0; 0] None.
 Definition cv_cache := mkCache [cv_stale] [((1, 1, 1), [])] [(1, (1, 1))] [].
 (* the same cache after a send failure on store 1 (its fail-epoch is 1, the entry recorded 0) *)
 Definition cv_cache_failed := mkCache [cv_stale] [((1, 1, 1), [])] [(1, (1, 1))] [(1, 1)].
